@@ -104,6 +104,7 @@ def main():
             {"name": "attempt", "path": "spec/Attempt.tla", "serves_properties": ["C01", "C02", "C07", "C10", "C11"], "kind_free_text": ENGINE_A},
             {"name": "amb", "path": "spec/Amb.tla", "serves_properties": ["C08"], "kind_free_text": "TLC exploration of the reference product, tie sets vs captured graph errors"},
             {"name": "lexspec", "path": "spec/LexSpec.tla", "serves_properties": ["C03", "C04", "C05", "C06", "C07", "C12", "C20"], "kind_free_text": "reference lexer on explicit inputs (sequence level, liveness, chunked protocol) + replay; Modes.tla, RefUtf8.tla"},
+            {"name": "graphlex", "path": "spec/GraphLex.tla", "serves_properties": ["C01", "C03", "C05", "C06", "C20"], "kind_free_text": "micro-step model of the generated code, model-checked against the reference lexer; GraphTrace.tla validates recorded traces against it step by step (drift level)"},
             {"name": "lextrace", "path": "spec/LexTrace.tla", "serves_properties": ["C03", "C04", "C05", "C06", "C20"], "kind_free_text": "trace validation of recorded hook events (code -> spec)"},
             {"name": "api", "path": "spec/LexerAPI.tla", "serves_properties": ["C14", "C15"], "kind_free_text": "API state machine over lexer objects + history replay"},
             {"name": "callbacks", "path": "spec/Callbacks.tla", "serves_properties": ["C13"], "kind_free_text": "callback decision table + replay"},
